@@ -354,3 +354,34 @@ def object_chain_float_free(ck, rule, rule_elem):
             continue
         okp += 1
     ck.check(okp > 0, rule, f, "object-carrier store paths (%d) keep Python-int elements from input to store" % okp, "no object-carrier store path recognised", f.node)
+
+
+def machine_carrier(ck, rule):
+    """C18.R5 / C19.R5: below the threshold the stored codes are int64 (signed) / uint64 (unsigned) arrays - the storage invariant the width typing of the
+    kernels assumes.  Every definition of the storage type in set_val is `object`, or np.int64 on the signed / np.uint64 on the unsigned branch."""
+    prog = ck.prog
+    from ..common import path_literals
+    f = A.funnel(prog)
+    seen = set()
+    n = 0
+    for pf in fpaths(prog, f):
+        for st in pf.stores:
+            if st.path != "val_dtype" or st.depth:
+                continue
+            n += 1
+            v = dotted(st.raw_value) if not isinstance(st.raw_value, ast.IfExp) else None
+            vs = dotted(st.value)
+            sg = None
+            for t, pol in path_literals(st.guards):
+                if dotted(t) == "self.signed":
+                    sg = pol
+            good = vs in ("object", "np.object_") or (vs == "np.int64" and sg is True) or (vs == "np.uint64" and sg is False)
+            key = (id(st.stmt), vs, sg)
+            if key in seen:
+                continue
+            seen.add(key)
+            ck.check(good, rule, f, "the machine carrier of the codes is int64 for signed and uint64 for unsigned formats (Python ints otherwise)",
+                     "storage type %s on the %s branch" % (src(st.value)[:40], {True: "signed", False: "unsigned", None: "undecided"}[sg]), st.stmt,
+                     "a narrower integer type makes the raw kernels (x.val * 2**k, products, sums) wrap far below 64 bits")
+    if n == 0:
+        raise AnalysisError("set_val: storage type definition not found")
